@@ -439,11 +439,17 @@ func (s *Sim) RandomAction(p *Profile) {
 	}
 	add("slowdisk", len(asyncUp) > 0, func() {
 		n := pickNode(asyncUp, "node")
-		which := d.Int(0, 2, "which")
-		if n.SlowAppend || n.SlowApply {
+		which := d.Int(0, 3, "which")
+		if n.SlowAppend || n.SlowApply || n.SlowAck {
 			// recover (more likely than stalling further)
-			n.SlowAppend, n.SlowApply = false, false
+			n.SlowAppend, n.SlowApply, n.SlowAck = false, false, false
 			s.begin("DiskRecovers(%d)", n.ID)
+			return
+		}
+		if which == 3 {
+			n.SlowAck = true
+			s.begin("AppendAcksDelayed(%d)", n.ID)
+			s.Stats.inc("async.acks_delayed")
 			return
 		}
 		n.SlowAppend = which != 1
@@ -636,10 +642,13 @@ func (s *Sim) fineStep(n *Node) {
 			opts = append(opts, func() { s.ApplyStep(n) })
 		}
 		for k := 0; k < 2; k++ {
-			if len(n.SelfQ[k]) > 0 {
+			if len(n.SelfQ[k]) > 0 && !(k == 0 && n.SlowAck) {
 				k := k
 				opts = append(opts, func() { s.SelfStep(n, k) })
 			}
+		}
+		if len(opts) == 0 {
+			return
 		}
 		opts[d.Int(0, len(opts)-1, "substep")]()
 		return
